@@ -390,7 +390,7 @@ def expr_precedence(rep: C.Report) -> None:
 OPS_CONDS = '''
 def opv_arith(x: int, y: int) -> bool:
     """
-    pre: -12 <= x <= 12 and -12 <= y <= 12
+    pre: ALL_OPS and -12 <= x <= 12 and -12 <= y <= 12
     post: _
     """
     return (
@@ -405,20 +405,20 @@ def opv_arith(x: int, y: int) -> bool:
 
 def opv_cmp(x: int, y: int) -> bool:
     """
-    pre: -3 <= x <= 3 and -3 <= y <= 3
+    pre: ALL_OPS and -3 <= x <= 3 and -3 <= y <= 3
     post: _
     """
-    t = P.binary_cmp_fns
+    t = lambda n: op("binary", n)  # noqa: E731
     return (
-        t["="](x, y) == (1 if x == y else 0)
-        and t["!="](x, y) == (1 if x != y else 0)
-        and t["<>"](x, y) == (1 if x != y else 0)
-        and t["<"](x, y) == (1 if x < y else 0)
-        and t[">"](x, y) == (1 if x > y else 0)
-        and t["<="](x, y) == (1 if x <= y else 0)
-        and t[">="](x, y) == (1 if x >= y else 0)
-        and P.binary_and_fns["and"](x, y) == (1 if (x != 0 and y != 0) else 0)
-        and P.binary_or_fns["or"](x, y) == (1 if (x != 0 or y != 0) else 0)
+        t("=")(x, y) == (1 if x == y else 0)
+        and t("!=")(x, y) == (1 if x != y else 0)
+        and t("<>")(x, y) == (1 if x != y else 0)
+        and t("<")(x, y) == (1 if x < y else 0)
+        and t(">")(x, y) == (1 if x > y else 0)
+        and t("<=")(x, y) == (1 if x <= y else 0)
+        and t(">=")(x, y) == (1 if x >= y else 0)
+        and t("and")(x, y) == (1 if (x != 0 and y != 0) else 0)
+        and t("or")(x, y) == (1 if (x != 0 or y != 0) else 0)
     )
 
 
@@ -442,25 +442,23 @@ def gen_ops(quick: bool) -> str:
     for y in Y:
         t = f"m{-y}" if y < 0 else str(y)
         out.append(f'''
-def opv_mod_{t}(x: int, fx: bool) -> bool:
+def opv_mod_{t}(x: int) -> bool:
     """
-    pre: -40 <= x <= 40
+    pre: -15 <= x <= 15
     post: _
     """
-    xv = x + 0.5 if fx else x
-    got = op("binary_mul_fns", "mod")(xv, {y})
-    want = ref_mod(xv, {y})
+    got = op("binary_mul_fns", "mod")(x, {y})
+    want = ref_mod(x, {y})
     return is_err(got) if want == "ERR" else same_num(got, want)
 
 
-def replay_opv_mod_{t}(x, fx):
-    xv = x + 0.5 if fx else x
-    return _rp_op(f"{{xv}} mod {y}", ref_mod(xv, {y}))
+def replay_opv_mod_{t}(x):
+    return _rp_op(f"{{x}} mod {y}", ref_mod(x, {y}))
 
 
 def opv_modf_{t}(x: int) -> bool:
     """
-    pre: -40 <= x <= 40
+    pre: -15 <= x <= 15
     post: _
     """
     # a fractional divisor is truncated first
@@ -477,7 +475,7 @@ def replay_opv_modf_{t}(x):
 
 def opv_div_{t}(x: int) -> bool:
     """
-    pre: -40 <= x <= 40
+    pre: -15 <= x <= 15
     post: _
     """
     for name in ("/", "div"):
@@ -485,7 +483,7 @@ def opv_div_{t}(x: int) -> bool:
         if {y} == 0:
             if not is_err(got):
                 return False
-        elif is_err(got) or got != x / {y}:
+        elif is_err(got) or got * {y} != x:
             return False
     return True
 ''')
@@ -494,7 +492,7 @@ def opv_div_{t}(x: int) -> bool:
         out.append(f'''
 def opv_round_{t}(x: int) -> bool:
     """
-    pre: -300 <= x <= 300
+    pre: -{25 * 10 ** max(0, -d - 1)} <= x <= {25 * 10 ** max(0, -d - 1)} and x % {10 ** max(0, -d - 1)} == 0
     post: _
     """
     return same_num(op("binary_round_fns", "round")(x, {d}), ref_round_int(x, {d}))
@@ -525,11 +523,26 @@ def run_ops(rep: C.Report, quick: bool) -> None:
     xh.check_harness(
         rep,
         HOPS,
-        {"^opv_": dict(name="Ob5 #expr operators compute the documented values (mod, round, division, arithmetic, comparison, logic)", functions=["parserfns.py: binary_mul_fns, binary_add_fns, binary_round_fns, binary_cmp_fns, binary_and_fns, binary_or_fns, unary_fns"], bounds="first operand symbolic in [-40,40] (round: [-300,300]), second operand enumerated (divisors -4..4, thorough -9..9; digits -2..2); halves k/2 for |k| <= 9; mod also with a .5 fraction on either operand")},
-        timeout=120 if quick else 400,
+        {"^opv_(mod|modf|arith|cmp|half)": dict(name="Ob5a #expr integer-valued operators compute the documented values (mod, arithmetic, comparison, logic, rounding of halves)", functions=["parserfns.py: binary_mul_fns, binary_add_fns, binary_cmp_fns, binary_and_fns, binary_or_fns, binary_round_fns, unary_fns"], bounds="first operand symbolic in [-15,15] ([-12,12]^2 for arithmetic, [-3,3]^2 for comparison/logic), divisor enumerated (-4..4, thorough -9..9) also with a .5 fraction; halves k/2 for |k| <= 9")},
+        timeout=60 if quick else 300,
         src=src,
-        batch=1,
+        batch=6,
         twins=False,
+        select="^opv_(mod|modf|arith|cmp|half)",
+    )
+    # operators with real-valued results: CrossHair models floats as reals and does not exhaust these conditions (measured:
+    # > 1000 paths without verdict); they are kept as bug hunting with a short budget - on the pinned tree they produced
+    # '5 round -1' and '0.5 round 0' within a second
+    xh.check_harness(
+        rep,
+        HOPS,
+        {"^opv_(div|round)": dict(name="Ob5b #expr division and round (real-valued; explored, not exhausted)", functions=["parserfns.py: binary_mul_fns['/'], ['div'], binary_round_fn"], bounds="first operand symbolic in [-15,15] (round: 51 multiples of the unit below the rounding position), second operand enumerated")},
+        timeout=12 if quick else 120,
+        src=src,
+        batch=7,
+        twins=False,
+        explore_only=True,
+        select="^opv_(div|round)",
     )
 
 
